@@ -203,16 +203,20 @@ func (e *evidence) write(path string) error {
 			"failing allocations":                                   "Go aborts the process; the library cannot observe it",
 			"failing system calls / EINTR":                          "the library makes none",
 		},
-		"callback_invocations":       e.CBCalls,
-		"probes":                     e.Probes,
-		"capped_runs":                e.Capped,
-		"overrun_runs":               e.Overruns,
-		"decision_overflow_runs":     e.DecOverflow,
-		"sites_total":                e.p.Instr.NumSites,
-		"sites_flagged_shared":       e.p.Instr.Flagged,
-		"sites_reached":              reached,
-		"sites_never_reached":        len(never),
-		"sites_never_reached_sample": neverSample,
+		"callback_invocations": e.CBCalls,
+		"probes":               e.Probes,
+		// incidental: how often one of the harness's own limits ended or truncated a run — not a measure
+		// of work done (it goes up and down with the base seed), hence words rather than numbers
+		"harness_limits_hit": map[string]string{
+			"runs_that_reached_the_global_step_cap":                          fmt.Sprintf("%d of %d", e.Capped, e.Runs),
+			"runs_with_an_operation_past_its_step_bound":                     fmt.Sprintf("%d of %d", e.Overruns, e.Runs),
+			"runs_whose_decision_list_was_truncated_(replay_from_seed_only)": fmt.Sprintf("%d of %d", e.DecOverflow, e.Runs),
+		},
+		"sites_total":                                e.p.Instr.NumSites,
+		"sites_flagged_shared":                       e.p.Instr.Flagged,
+		"sites_reached":                              reached,
+		"sites_never_reached":                        len(never),
+		"sites_never_reached_sample":                 neverSample,
 		"site_pairs_preempted_x_resumed_lower_bound": e.PairCount,
 		"determinism_self_test":                      det,
 		"known_findings_matched":                     e.KnownFindings,
